@@ -278,6 +278,11 @@ def standin_sweeps_roundtrip(tier, seed):
               cirq.Product(cirq.Points("a", [1.0, 2.0]), cirq.Zip(cirq.Points("b", [1, 2]), cirq.Points("c", [3, 4]))), cirq.Points("a", [0.1 + 0.2]), cirq.Points("a", []),
               cirq.Concat(cirq.Points("a", [1, 2]), cirq.Points("a", [3])), cirq.ZipLongest(cirq.Points("a", [1, 2, 3]), cirq.Points("b", [4]))]
     try:
+        from cirq_google.study import FiniteRandomVariable as _FRV
+        sweeps += [_FRV("a", {0: 0.5, 1: 0.5}, seed=3, length=6), _FRV("a", {1.5: 0.25, -2.0: 0.5, 0.25: 0.25}, seed=11, length=9), cirq.Zip(_FRV("a", {3: 1, 1: 2, 2: 1}, seed=5, length=4), cirq.Points("b", [1, 2, 3, 4]))]
+    except ImportError:
+        pass
+    try:
         import tunits
 
         ns, us, GHz, MHz = tunits.ns, tunits.us, tunits.GHz, tunits.MHz
